@@ -522,22 +522,22 @@ class URL:
     def __le__(self, other: object) -> bool:
         if type(other) is not URL:
             return NotImplemented
-        return self._val <= other._val
+        return self._cmp_val <= other._cmp_val
 
     def __lt__(self, other: object) -> bool:
         if type(other) is not URL:
             return NotImplemented
-        return self._val < other._val
+        return self._cmp_val < other._cmp_val
 
     def __ge__(self, other: object) -> bool:
         if type(other) is not URL:
             return NotImplemented
-        return self._val >= other._val
+        return self._cmp_val >= other._cmp_val
 
     def __gt__(self, other: object) -> bool:
         if type(other) is not URL:
             return NotImplemented
-        return self._val > other._val
+        return self._cmp_val > other._cmp_val
 
     def __truediv__(self, name: str) -> "URL":
         if not isinstance(name, str):
@@ -610,6 +610,13 @@ class URL:
     @cached_property
     def _val(self) -> SplitURLType:
         return (self._scheme, self._netloc, self._path, self._query, self._fragment)
+
+    @cached_property
+    def _cmp_val(self) -> SplitURLType:
+        # ordering key consistent with __eq__: an empty path under an
+        # authority counts as "/"
+        path = "/" if not self._path and self._netloc else self._path
+        return (self._scheme, self._netloc, path, self._query, self._fragment)
 
     @cached_property
     def _origin(self) -> "URL":
